@@ -38,10 +38,27 @@ PROPS["C02"] = dict(
                 "comparing sf[...] / read(...) / chained / split / reduce results with numpy indexing of the full table.",
     limit_quick=60)
 
+PROPS["C05"] = dict(
+    level="proof", needs_ext=True,
+    technique="contract-based deductive verification of both histogram engines (Python via ast, C via clang AST) against one functional specification; z3",
+    level_text="The Python engine (_dohist) and the C engine (PyCHist_chist, translated mechanically from clang's AST on every run) are each "
+               "verified against the same contract transcribed from the statement (rev offsets delimit exactly the data of each bin in "
+               "sort order, slice length == count, data area == sort order) with inductive loop invariants; the sort-index and min/max "
+               "selection that establish the engines' preconditions are verified too (stable order, exactly the data within the limits). "
+               "Identity of the two engines follows from both meeting one deterministic specification.",
+    level_note="Trusted: esvc (incl. the C front end and the API stub headers), z3, clang; the bin number trunc((x-dmin)/binsize) is an "
+               "uninterpreted function of the datum (same term in both engines and the specification) - its monotonicity along the sort "
+               "order (IEEE rounding is monotone) and the equality of numpy float64 and C double arithmetic are assumptions; numpy "
+               "argsort(kind='stable'), where, fancy indexing contracts (nplib catalogue). The glue histogram()/Binner._do_hist/"
+               "_hist_by_binsize_or_nbin is covered by the bounded layer (statement oracle + engine comparison).",
+    explanation="Proved: both engines + sort/limit selection (124 named obligations). Bounded (labelled): the statement evaluated "
+                "directly on histogram(..., rev=True) for enumerated and seeded data sets, both engines compared for identity.",
+    limit_quick=60)
+
 for _k in range(1, 21):
     PROPS.setdefault("C%02d" % _k, dict(level="other", needs_ext=True, explanation="see DESIGN.md section 8"))
 
 
-CLAIMED = {"C20", "C02"}
+CLAIMED = {"C20", "C02", "C05"}
 NOT_APPLICABLE = {("C%02d" % k): "check not built yet (implementation in progress; plan in DESIGN.md section 8)"
                   for k in range(1, 21) if ("C%02d" % k) not in CLAIMED}
